@@ -207,6 +207,10 @@ class EngineRecorder:
                     raise
                 try:
                     enc = [rec._enc_sub(b, shots) for b in subs]
+                    # dense renumbering of the state objects returned by this step (0 = no state): aliasing check
+                    ids = {}
+                    for x, b in zip(enc, subs):
+                        x["sid"] = 0 if b.state is None else ids.setdefault(id(b.state), len(ids) + 1)
                     rec.cur.append({"e": "step", "ok": True, "cur_shots": -1 if shots is None else int(shots),
                                     "norm": norm, "exact": all(x.pop("exact") for x in enc), "subs": enc})
                 except Exception as e:
